@@ -685,6 +685,53 @@ def rule_shared_objects(F, R):
     R.floor("R-C18-6", n, 40, "concurrent lambda bodies")
 
 
+def rule_selection_order(F, R):
+    """R-C18-7: the weak learners pick their feature in two stages - each worker keeps the best candidate of the features it happened to scan
+    (strict `score < best`), then the per-worker bests are reduced. Which features a worker scans depends on the thread count and on the
+    schedule, so the outcome is independent of both only if the reduction applies the very same order: the comparator of the reducer is the
+    strict `one.m_score < other.m_score` on the score alone. A tolerance or a second key in the reducer only (one of two cooperating sites)
+    makes the selected feature depend on whether two near-tied features were scanned by the same worker."""
+    n = 0
+    reducers = {}
+    for f in F.functions.values():
+        if f.body is None or not f.relfile.startswith("src/wlearner/"):
+            continue
+        for c in f.calls(lambda c: "reduce" in callee(c).split("::")[-1] and "min" in callee(c).split("::")[-1]):
+            reducers.setdefault(strip_targs(callee(c)), []).append((f, c))
+    for q, sites in sorted(reducers.items()):
+        gs = [g for g in F.functions.values() if strip_targs(g.qn) == q and g.body is not None]
+        if not gs:
+            R.incomplete("R-C18-7", q, sites[0][0].loc(sites[0][1]), "the reducer's definition was not found")
+            continue
+        g = gs[0]
+        me = [c for c in g.calls(lambda c: callee(c) == "std::min_element")]
+        lam = None
+        if len(me) == 1 and len(args(me[0])) == 3:
+            cmp_ = skip(args(me[0])[2])
+            if cmp_["k"] == "ref":
+                v, _ = find_var(g, cmp_.get("d"))
+                cmp_ = skip(v["c"][0]) if v is not None and v.get("c") else cmp_
+            if cmp_["k"] == "lambda":
+                lam = F.by_lid.get(cmp_.get("lid"), [None])[0]
+        n += 1
+        inst = "%s (%d call sites)" % (q.split("::")[-1], len(sites))
+        if lam is None:
+            R.incomplete("R-C18-7", inst, g.loc(), "the reduction is not a std::min_element with a comparator lambda")
+            continue
+        rets = [x for x in lam.nodes() if x["k"] == "return" and x.get("c")]
+        ok = False
+        if len(rets) == 1 and len(lam.params) == 2:
+            e = skip(rets[0]["c"][0])
+            if e["k"] == "bin" and e["op"] == "<":
+                a_, b_ = skip(e["c"][0]), skip(e["c"][1])
+                ok = a_["k"] == "mem" and b_["k"] == "mem" and a_["n"] == "m_score" and b_["n"] == "m_score" and \
+                    ref_decl(a_["c"][0]) == lam.params[0]["d"] and ref_decl(b_["c"][0]) == lam.params[1]["d"]
+        R.check(ok, "R-C18-7", inst, g.loc(), "the per-worker bests are reduced with the strict order on the score that each worker applies to its own candidates",
+                "the reducer compares with `%s`, the workers with the strict `score < best`: the selected feature then depends on which worker scanned which feature, i.e. on "
+                "the number of threads and the schedule" % (pp(rets[0]["c"][0])[:110] if rets else "?"))
+    R.floor("R-C18-7", n, 1, "cross-worker reductions of the weak learners' candidates")
+
+
 def run(ctx):
     R = ctx.report
     tus = sorted(set(ctx.all_tus()) | {"witness/effects_inst.cpp"})
@@ -697,3 +744,4 @@ def run(ctx):
     rule_tune(F, R)
     rule_lsearch(F, R)
     rule_shared_objects(F, R)
+    rule_selection_order(F, R)
